@@ -40,6 +40,8 @@ def _bayes(n, m):
     def h(vc):
         w = _weights(vc, n)
         nis = [vc.real(f"nis{i}", 0, 1e4) for i in range(n)]
+        if not vc.symbolic:
+            nis = [x * 4e-3 for x in nis]  # native sampling: keep the likelihoods away from underflow (the underflow branch is covered symbolically)
         models = []
         dets = []
         for i in range(n):
@@ -49,6 +51,8 @@ def _bayes(n, m):
                 dets.append(s)
             else:
                 a, c, b = vc.real(f"a{i}", 1e-3, 1e3), vc.real(f"c{i}", 1e-3, 1e3), vc.real(f"b{i}", -1e3, 1e3)
+                if not vc.symbolic:
+                    b = b * 0.99e-3 * np.sqrt(a * c)  # native sampling: off-diagonal scaled into the positive-definite range
                 vc.assume(a * c - b * b > 1e-9)
                 S = _arr(vc, [[a, b], [b, c]])
                 dets.append(a * c - b * b)
@@ -150,9 +154,13 @@ def _moments(n, dim, tier):
                 pP = _arr(vc, [[vc.real(f"pP{i}", 0, 100)]])
             else:
                 a, c, b = vc.real(f"Pa{i}", 0, 100), vc.real(f"Pc{i}", 0, 100), vc.real(f"Pb{i}", -100, 100)
+                if not vc.symbolic:
+                    b = b * 0.99e-2 * np.sqrt(a * c)  # native sampling: off-diagonal scaled into the positive semi-definite range
                 vc.assume(a * c - b * b >= 0)
                 P = _arr(vc, [[a, b], [b, c]])
                 a2, c2, b2 = vc.real(f"pPa{i}", 0, 100), vc.real(f"pPc{i}", 0, 100), vc.real(f"pPb{i}", -100, 100)
+                if not vc.symbolic:
+                    b2 = b2 * 0.99e-2 * np.sqrt(a2 * c2)
                 vc.assume(a2 * c2 - b2 * b2 >= 0)
                 pP = _arr(vc, [[a2, b2], [b2, c2]])
             xs.append(x); Ps.append(P); pxs.append(px); pPs.append(pP)
@@ -240,6 +248,8 @@ def _gpb(n):
     def h(vc):
         mp = _weights(vc, n, "p")
         nis = [vc.real(f"nis{i}", 0, 1e4) for i in range(n)]
+        if not vc.symbolic:
+            nis = [x * 4e-3 for x in nis]  # native sampling: keep the likelihoods away from underflow (the underflow branch is covered symbolically)
         ss = [vc.real(f"s{i}", 1e-6, 1e6) for i in range(n)]
         models = [_NS(nis=nis[i], innov_cvr=_arr(vc, [[ss[i]]]), update=lambda obs: None) for i in range(n)]
         mix_ratio = vc.real("mix", 0.5, 100)
